@@ -93,6 +93,101 @@ fn dec_twin(ea: &[u8], ca: usize, eb: &[u8], cb: usize, ma: [M; 2], mb: [M; 2], 
     Ok((fa, fb))
 }
 
+/// One codec whose calls come from different threads: the first piece is fed here, the second on a
+/// freshly spawned helper thread, which (or this thread) also finishes it.  Encoder and Decoder are
+/// Send: a pipeline may hand them from stage to stage.
+fn threaded_case(x: &[u8], cx: usize, m: [M; 2], limits: Limits, finish_on_helper: bool) -> Result<(), String> {
+    let (first, later) = limits_of(limits);
+    let want = refcodec::encode(x, first, later);
+    let mut enc = Enc::new(limits, OwningIovec::new());
+    enc.feed(&x[..cx], m[0])?;
+    let out: Vec<u8> = std::thread::scope(|s| -> Result<Vec<u8>, String> {
+        let h = s.spawn(move || -> Result<(Option<Vec<u8>>, Option<Enc>), String> {
+            let mut enc = enc;
+            enc.feed(&x[cx..], m[1])?;
+            if finish_on_helper {
+                Ok((Some(enc.finish().flatten().map_err(|_| "finish() left a placeholder pending".to_string())?), None))
+            } else {
+                Ok((None, Some(enc)))
+            }
+        });
+        match h.join().map_err(|_| "panic on the helper thread".to_string())?? {
+            (Some(o), _) => Ok(o),
+            (None, Some(enc)) => enc.finish().flatten().map_err(|_| "finish() left a placeholder pending".to_string()),
+            _ => Err("harness: no output".to_string()),
+        }
+    })?;
+    if out != want {
+        return Err(format!("[canon] [shape] [roundtrip] an encoder fed from two threads in turn produced [{}]; the canonical encoding is [{}]", hex(&out), hex(&want)));
+    }
+    let cd = cx.min(want.len());
+    let mut dec = Dec::new(limits, OwningIovec::new());
+    let ok = dec.feed(&want[..cd], m[0])?;
+    let want_ref = &want;
+    let back: Option<Vec<u8>> = std::thread::scope(|s| -> Result<Option<Vec<u8>>, String> {
+        let h = s.spawn(move || -> Result<Option<Vec<u8>>, String> {
+            let mut dec = dec;
+            if !ok || !dec.feed(&want_ref[cd..], m[1])? {
+                return Ok(None);
+            }
+            Ok(dec.finish().and_then(|o| o.flatten().ok()))
+        });
+        h.join().map_err(|_| "panic on the helper thread".to_string())?
+    })?;
+    if back.as_deref() != Some(x) {
+        return Err(format!("[canon] [roundtrip] a decoder fed from two threads in turn returned {}; the stream decodes to [{}]", match &back { Some(g) => format!("[{}]", hex(g)), None => "a rejection".to_string() }, hex(x)));
+    }
+    Ok(())
+}
+
+struct PanickingReader;
+impl std::io::Read for PanickingReader {
+    fn read(&mut self, _dst: &mut [u8]) -> std::io::Result<usize> {
+        panic!("the caller's reader panicked");
+    }
+}
+
+/// Caller-supplied code that fails by unwinding: a reader that panics inside encode_read /
+/// decode_read (the panic is caught by the caller), after which the same codec is fed the data
+/// through a well-behaved reader.  The interrupted call delivered nothing, so the result must be
+/// that of the data alone.  Production codecs only (the limit-parameterised hook has no *_read).
+fn panic_retry_case(x: &[u8], cx: usize) -> Result<(), String> {
+    let max = std::num::NonZeroUsize::MAX;
+    let want = refcodec::encode(x, refcodec::PROD_FIRST, refcodec::PROD_LATER);
+    let mut enc = hcobs::Encoder::new();
+    enc.encode_copy(&x[..cx]);
+    let r = std::panic::catch_unwind(std::panic::AssertUnwindSafe(|| enc.encode_read(PanickingReader, (x.len() - cx).max(1), max)));
+    if r.is_ok() {
+        return Err("harness: the panicking reader was not called".to_string());
+    }
+    let rest = &x[cx..];
+    let n = enc.encode_read(FullReader(rest), rest.len(), max).map_err(|e| format!("encode_read after a caught reader panic failed: {}", e))?;
+    if n != rest.len() {
+        return Err(format!("[canon] [shape] [roundtrip] [prefix] encode_read after a caught reader panic read {} of {} bytes", n, rest.len()));
+    }
+    let out = enc.finish().flatten().map_err(|_| "[prefix] [canon] [shape] [roundtrip] after a reader panicked inside encode_read (and was caught) finish() leaves a header placeholder pending: output that never becomes consumable".to_string())?;
+    if out != want {
+        return Err(format!("[canon] [shape] [roundtrip] [prefix] after a reader panicked inside encode_read (and was caught) the encoder produced [{}]; the canonical encoding of the data is [{}]", hex(&out), hex(&want)));
+    }
+    let cd = cx.min(want.len());
+    let mut dec = hcobs::Decoder::new();
+    dec.decode_copy(&want[..cd]).map_err(|e| format!("decode failed: {}", e))?;
+    let r = std::panic::catch_unwind(std::panic::AssertUnwindSafe(|| dec.decode_read(PanickingReader, (want.len() - cd).max(1), max)));
+    if r.is_ok() {
+        return Err("harness: the panicking reader was not called".to_string());
+    }
+    let rest = &want[cd..];
+    let n = dec.decode_read(FullReader(rest), rest.len(), max).map_err(|e| format!("[canon] [roundtrip] decode_read after a caught reader panic failed: {}", e))?;
+    if n != rest.len() {
+        return Err(format!("[canon] [roundtrip] decode_read after a caught reader panic read {} of {} bytes", n, rest.len()));
+    }
+    let back = dec.finish().ok().and_then(|o| o.flatten().ok());
+    if back.as_deref() != Some(x) {
+        return Err(format!("[canon] [roundtrip] [prefix] after a reader panicked inside decode_read (and was caught) the decoder returned {}; the stream decodes to [{}]", match &back { Some(g) => format!("[{}]", hex(g)), None => "a rejection".to_string() }, hex(x)));
+    }
+    Ok(())
+}
+
 fn mname(m: [M; 2]) -> String {
     format!("{:?}+{:?}", m[0], m[1])
 }
@@ -213,6 +308,52 @@ pub fn run(ctx: &Ctx, rep: &mut Report, unit: &mut usize) {
             if !ctx.owns(u) {
                 continue;
             }
+            // a reader that panics once inside the codec's *_read call, then a retry
+            if limits.is_none() {
+                for cx in (0..=x.len().min(4)).chain([x.len().saturating_sub(1), x.len()]) {
+                    cases += 1;
+                    rep.evaluations += 1;
+                    rep.transitions += 6;
+                    let r = match catch(|| panic_retry_case(&x, cx.min(x.len()))) {
+                        Ok(r) => r,
+                        Err(p) => Err(format!("panic: {}", p)),
+                    };
+                    owning_iovec::verif::drain_quarantine();
+                    if let Err(e) = r {
+                        if !relevant(&e) {
+                            rep.count("cases_failing_only_a_sibling_oracle", 1);
+                            continue;
+                        }
+                        let case = TwinCase { limits, x: x.clone(), cx: cx.min(x.len()), y: vec![], cy: 0, ma: [M::Read, M::Read], mb: [M::Copy, M::Copy], b_first: false };
+                        let r = format!("panicretry {}", case.render());
+                        rep.violation(Violation { key: format!("{}:panicretry:{}", ctx.prop, r.replace(' ', ";")), summary: format!("hcobs, a reader that panics once inside *_read, then a retry [{}]: {}", r, e), replay_text: format!("twin: {}\nobserved: {}\n", r, e) });
+                    }
+                }
+            }
+            // the same input through ONE codec used from two threads in turn
+            for cx in 0..=x.len().min(6) {
+                for m in pairs.iter() {
+                    for on_helper in [false, true] {
+                        cases += 1;
+                        rep.evaluations += 1;
+                        rep.transitions += 4;
+                        let r = match catch(|| threaded_case(&x, cx, *m, limits, on_helper)) {
+                            Ok(r) => r,
+                            Err(p) => Err(format!("panic: {}", p)),
+                        };
+                        owning_iovec::verif::drain_quarantine();
+                        if let Err(e) = r {
+                            if !relevant(&e) {
+                                rep.count("cases_failing_only_a_sibling_oracle", 1);
+                                continue;
+                            }
+                            let case = TwinCase { limits, x: x.clone(), cx, y: vec![], cy: 0, ma: *m, mb: [M::Copy, M::Copy], b_first: on_helper };
+                            let r = format!("threaded {}", case.render());
+                            rep.violation(Violation { key: format!("{}:threaded:{}", ctx.prop, r.replace(' ', ";")), summary: format!("hcobs, one codec used from two threads in turn [{}]: {}", r, e), replay_text: format!("twin: {}\nobserved: {}\n", r, e) });
+                        }
+                    }
+                }
+            }
             let cuts: Vec<usize> = if x.len() <= 6 { (0..=x.len()).collect() } else { vec![x.len() - 3, x.len() - 2, x.len() - 1, 250.min(x.len()), 252.min(x.len())] };
             for y in y_inputs(limits) {
                 for &cx in &cuts {
@@ -243,7 +384,7 @@ pub fn run(ctx: &Ctx, rep: &mut Report, unit: &mut usize) {
         }
     }
     rep.count("twin_cases", cases);
-    rep.note("twin instances: two Encoders (then two Decoders on the two canonical streams) alive at once and fed alternately, each input in two pieces: x over every string on {FE, FD, 00} up to length 4 / 5 at limits (2,3) and (3,5) and 72 production-limit shapes (x^k . mid . tail, k around 0 and 252), every cut of x, y from a fixed list, 6 method pairs, either finishing order; each output must be the canonical encoding / decoding of its own input".to_string());
+    rep.note("twin instances: two Encoders (then two Decoders on the two canonical streams) alive at once and fed alternately, each input in two pieces: x over every string on {FE, FD, 00} up to length 4 / 5 at limits (2,3) and (3,5) and 72 production-limit shapes (x^k . mid . tail, k around 0 and 252), every cut of x, y from a fixed list, 6 method pairs, either finishing order; each output must be the canonical encoding / decoding of its own input; and every x through ONE encoder / decoder whose two calls come from two threads in turn (fed here, then fed and possibly finished on a freshly spawned helper thread); and (production codecs) a reader that panics once inside encode_read / decode_read, caught by the caller, followed by a retry with a well-behaved reader".to_string());
 }
 
 pub fn replay(text: &str) -> Result<String, String> {
@@ -251,6 +392,28 @@ pub fn replay(text: &str) -> Result<String, String> {
     let Some(case) = field(text, "twin").and_then(parse) else {
         machinery_failure("cannot parse twin case");
     };
+    if field(text, "twin").is_some_and(|t| t.starts_with("panicretry ")) {
+        let r = match catch(|| panic_retry_case(&case.x, case.cx)) {
+            Ok(r) => r,
+            Err(p) => Err(format!("panic: {}", p)),
+        };
+        return match r {
+            Err(e) if !relevant(&e) => Err(format!("only a sibling property's oracle fails: {}", e)),
+            Err(e) => Ok(e),
+            Ok(()) => Err("the codec produces the canonical output after a caught reader panic".into()),
+        };
+    }
+    if field(text, "twin").is_some_and(|t| t.starts_with("threaded ")) {
+        let r = match catch(|| threaded_case(&case.x, case.cx, case.ma, case.limits, case.b_first)) {
+            Ok(r) => r,
+            Err(p) => Err(format!("panic: {}", p)),
+        };
+        return match r {
+            Err(e) if !relevant(&e) => Err(format!("only a sibling property's oracle fails: {}", e)),
+            Err(e) => Ok(e),
+            Ok(()) => Err("the codec produces the canonical output whichever thread calls it".into()),
+        };
+    }
     match case.run() {
         Err(e) if !relevant(&e) => Err(format!("only a sibling property's oracle fails: {}", e)),
         Err(e) => Ok(e),
